@@ -305,6 +305,11 @@ pub fn run(prop: &str, tier: Tier) -> ! {
             }
         }
     }
+    if prop == "C12" {
+        if let Some(v) = std::fs::read_to_string(mcx::report::verif_root().join(".work/c12-client-programs.json")).ok().and_then(|t| serde_json::from_str::<serde_json::Value>(&t).ok()) {
+            cov.insert("client_programs".into(), v);
+        }
+    }
     cov.insert("samples".into(), json!(samples.take()));
     rep.finish(
         cov,
